@@ -266,7 +266,7 @@ Proof. exact TEB.TEBProofs.teb_refuted_late_expand. Qed.
 Print Assumptions C03_transit_buffer_refuted_late_expand.
 
 (* the link from M-BE to the list machine the slot array refines: what a read pass of M-BE does to a thread's transit
-   buffer is a sequence of commits (one per admitted record) and abandoned fills (a record beyond the timestamp cut-off,
+   buffer is a sequence of commits (one per record taken in) and abandoned fills (a record beyond the timestamp cut-off,
    a formatter's exception that escapes), and popping the processed event is OPop - for every fuel, limit, cut-off and
    thread record *)
 From Quill Require Backend.BETeb.
